@@ -68,6 +68,22 @@ for t1 in TN:
         progs.append(p1 + [("if", ("not", ("bin", "&", reg("PvV"), L("1"))), [("assign", X, "=", a)], [("assign", X, "=", L("0"))])])
     progs.append(p1 + [("assign", P0, "=", a), ("assign", P1, "=", ("un", "~", a))])
     progs.append(p1 + [("assign", SA1, "=", ("bin", "+", reg("HEX_REG_ALIAS_PC") if False else a, L("4"))), ("assign", LC1, "=", a)])
+# low-bits macro calls: extract64/sextract64(x, start, len) with constant start/len on arguments of every type
+# (certifiedSemX: the first argument may be converted differently above its own width when start+len <= width)
+for t1 in TN:
+    a = var("a", t1)
+    p1 = [decl(t1, "a", ("cast", t1, T[t1], reg("RssV")))]
+    for (st_, ln_) in ((0, 0), (0, 1), (0, 7), (0, 8), (0, 16), (0, 17), (0, 32), (0, 33), (0, 64), (8, 8), (16, 16), (24, 16), (31, 1), (32, 1), (7, 1), (8, 1), (15, 1), (16, 1)):
+        for mname, ret in (("sextract64", (True, 64)), ("extract64", (False, 64))):
+            call = ("macro", mname, [a, L(str(st_)), L(str(ln_))], ret)
+            progs.append(p1 + [wr("RddV", call)])
+            if ln_:
+                progs.append(p1 + [wr("RddV", ("tern", ("cmp", "!=", L(str(ln_)), L("0")), call, L("0LL")))])
+            call2 = ("macro", mname, [("bin", "+", a, reg("RtV")), L(str(st_)), L(str(ln_))], ret)
+            progs.append(p1 + [wr("RdV", call2)])
+    # non-constant length / start: never through the low-bits clause
+    progs.append(p1 + [wr("RddV", ("macro", "sextract64", [a, L("0"), reg("RtV")], (True, 64)))])
+    progs.append(p1 + [wr("RddV", ("macro", "extract64", [a, reg("RtV"), L("8")], (False, 64)))])
 print("programs", len(progs))
 items = [{"ast": a_, "src": gen.prog_src(a_)} for a_ in progs]
 parsed = rc.parse_programs([it["src"] for it in items])
@@ -86,9 +102,10 @@ cnt = collections.Counter(); bad = []
 for (i, _), rp_ in zip(reqs, reps):
     d = semcheck.parse_sem(rp_)
     if "error" in d or not d.get("parsed"): cnt["unparsed"] += 1; continue
-    cert = d.get("certified-sem") == "1"
+    cert = d.get("certified-sem") == "1" or d.get("certified-semx") == "1"
     cnt[("tree-equal" if d["tree-equal"] else "tree-diff", "cert" if cert else "nocert", "fail" if d.get("fail") else "ok")] += 1
     if d["tree-equal"] and cert and d.get("fail"): bad.append((items[i]["src"], d["fail"]))
+    if d.get("certified-semx") == "1" and d.get("certified-sem") != "1": cnt["certified only by certifiedSemX (MsLow)"] += 1
 for k, v in sorted(cnt.items(), key=str): print(k, v)
 print("CERTIFIED WITH FAILING STATE:", len(bad))
 for b_ in bad[:10]: print(b_)
